@@ -131,6 +131,36 @@ def rule_reassembly(ck, fi, consts):
                 out.append((X.arg_view(c.args[0], env, u), X.arg_view(c.args[1], env, u), u))
         return out
 
+    kind, ev = X.field_kind(ck.repo, W, P13, X.BUF)
+    if kind not in ("bytes", "chunks"):
+        raise AnalysisError("_fragmented_message_buffer: representation cannot be resolved (%s)" % kind)
+    big = {"self.params.max_message_size": 10 ** 9}
+
+    def no_unknown(seen):
+        for sts in seen.values():
+            for _f, (_e, _a, u) in sts:
+                if u.buf == "unknown":
+                    raise AnalysisError("_receive_frame: the reassembly buffer is modified by an operation the analysis does not model")
+
+    # a message in progress whose fragments so far are empty is still "in progress": tests on the buffer must be `is None` tests
+    for nbytes in (0, 10):
+        cs = dict(consts, **big)
+        cs[X.BUF] = X.buffer_model(kind, nbytes)
+        for h, label in ((0x80, "final"), (0x00, "non-final")):
+            seen = X.run_frame(fi, cs, h=h, m=5)
+            no_unknown(seen)
+            exits = [u for _e, u in X.frame_states(seen, fi.cfg.exit)]
+            bad = [u for u in exits if u.aborted]
+            ck.ob(R, fi, fi.node, bool(exits) and not bad, "%s continuation frame while a message with %d buffered byte(s) is in progress is accepted on every path (an empty first fragment is legal)" % (label, nbytes),
+                  construct="continuation %s with %d buffered bytes: aborted=%s" % (label, nbytes, bool(bad) or not exits))
+    cs = dict(consts, **big)
+    cs[X.BUF] = None
+    for h in (0x81, 0x82, 0x01, 0x02, 0x89, 0x8A):
+        seen = X.run_frame(fi, cs, h=h, m=0)
+        no_unknown(seen)
+        exits = [u for _e, u in X.frame_states(seen, fi.cfg.exit)]
+        bad = [u for u in exits if u.aborted]
+        ck.ob(R, fi, fi.node, bool(exits) and not bad, "frame 0x%02X with an empty payload and no message in progress is accepted on every path" % h, construct="empty payload 0x%02X: aborted=%s" % (h, bool(bad) or not exits))
     # S1: final continuation of a fragmented message
     seen = X.run_frame(fi, consts, h=0x80, assume={BUF_NONE: False})
     vs = views(seen)
@@ -220,6 +250,20 @@ def rule_mask_reader(ck, fi, consts):
                 tags |= _extend_tags(fi, seen)
             want = "unmasked" if mbit else "payload"
             ck.ob(R, fi, fi.node, tags == {want}, "reader: header 0x%02X with mask bit %d: the payload consumed is %s (got %s)" % (h, bool(mbit), "XOR-ed with the 4-byte key read from this frame" if mbit else "taken as is", sorted(map(repr, tags))), construct="reader h=0x%02X maskbit=%d payload=%s" % (h, bool(mbit), sorted(map(repr, tags))))
+
+
+def rule_header_reads(ck, fi, consts):
+    """Which fixed-size reads follow the two header bytes: extended length (2 or 8) and the 4-byte key iff the mask bit is set,
+    also for empty payloads (the key is on the wire regardless of the payload length)."""
+    R = "C14.mask"
+    for mbit in (0, 0x80):
+        for code in (0, 1, 125, 126, 127):
+            seen = X.run_frame(fi, dict(consts, **{"self.params.max_message_size": 10 ** 9, X.BUF: None}), h=0x82, m=mbit | code)
+            exits = [u for _e, u in X.frame_states(seen, fi.cfg.exit) if not u.aborted]
+            want = (2,) + ((2,) if code == 126 else ()) + ((8,) if code == 127 else ()) + ((4,) if mbit else ())
+            got = sorted({u.hreads for u in exits})
+            ck.ob(R, fi, fi.node, bool(exits) and got == [want], "second header byte 0x%02X: the fixed-size reads are %s (2 header bytes, extended length, 4-byte key iff masked - also when the payload is empty); got %s" % (mbit | code, list(want), got),
+                  construct="fixed reads m=0x%02X -> %s" % (mbit | code, got))
 
 
 def _extend_tags(fi, seen):
@@ -520,7 +564,8 @@ def rule_write_message(ck, wm, consts):
                     fl = X.fold_in(fl_e, env, "?") if fl_e is not None else 0
                     got.append((fin, op, body, fl))
             want = (True, 2 if binary else 1, "deflated" if has_comp else "msg", consts.get("self.RSV1") if has_comp else 0)
-            ck.ob(R if True else R, wm, wm.node, bool(got) and all(g == want for g in got),
+            plain = (True, 2 if binary else 1, "msg", 0)
+            ck.ob(R, wm, wm.node, bool(got) and want in got and all(g in (want, plain) for g in got),
                   "write_message(binary=%s, compressor %s): one final frame, opcode %d, payload %s, flags %s (got %r)" % (binary, "present" if has_comp else "absent", want[1], "deflated" if has_comp else "as is", "RSV1" if has_comp else "0", got),
                   construct="write_message binary=%s comp=%s -> %r" % (binary, has_comp, sorted(set(map(repr, got)))))
 
@@ -629,6 +674,71 @@ def rule_deflate(ck, consts):
                 okw = True
     ck.ob(R, gco, gco.node, okp, "persistent (context takeover) iff '<side>_no_context_takeover' is not among the agreed parameters", construct="persistent rule: %s" % okp)
     ck.ob(R, gco, gco.node, okw, "window bits come from '<side>_max_window_bits' of the agreed parameters", construct="wbits rule: %s" % okw)
+    # options["max_wbits"]: the negotiated value when present, the zlib maximum otherwise; returned to the constructors
+    gfacts = must_facts(gco.cfg)
+    n_w = 0
+    for node in gco.cfg.stmt_nodes(lambda n: n.kind == "stmt" and isinstance(n.ast, ast.Assign) and isinstance(n.ast.targets[0], ast.Subscript) and q.is_const(n.ast.targets[0].slice, "max_wbits")):
+        n_w += 1
+        v = node.ast.value
+        src = None
+        for (txt, pol) in gfacts[node.id]:
+            if txt.endswith(" is None"):
+                src = (txt[: -len(" is None")], pol)
+        if src is None:
+            raise AnalysisError("_get_compressor_options: max_wbits assigned outside an `is None` test")
+        name, isnone = src
+        sts = q.stores_to(gco.node, name)
+        from_param = len(sts) == 1 and any(isinstance(x, ast.Call) and isinstance(x.func, ast.Attribute) and x.func.attr == "get" and q.dotted(x.func.value) == gps[1] for x in ast.walk(sts[0].value))
+        if isnone:
+            ok = q.dotted(v) == "zlib.MAX_WBITS"
+        else:
+            ok = q.is_call(v, "int") and len(v.args) == 1 and q.dotted(v.args[0]) == name
+        ck.ob(R, gco, node.ast, ok and from_param, "max_wbits is %s" % ("zlib.MAX_WBITS when the parameter is absent or has no value" if isnone else "int(<the agreed <side>_max_window_bits>)"))
+    ck.floor(R, n_w, 2, "max_wbits assignments in _get_compressor_options")
+    for cls in ("_PerMessageDeflateCompressor", "_PerMessageDeflateDecompressor"):
+        init = ck.func(W, cls + ".__init__")
+        st_ = q.stores_to(init.node, "self._max_wbits")
+        ck.ob(R, init, init.node, len(st_) == 1 and q.dotted(st_[0].value) == "max_wbits", "%s keeps the window bits it was given" % cls, construct="%s stores max_wbits" % cls)
+
+
+def rule_sides_and_reads(ck):
+    R = "C14.deflate-pairing"
+    # which endpoint are we?  the server-side handshake code must say "server", the client-side code "client"
+    for qn, want in ((P13 + "._accept_connection", "server"), (P13 + "._process_server_headers", "client")):
+        fi = ck.func(W, qn)
+        cs = q.find_calls(fi.node, "self._create_compressors")
+        ck.floor(R, len(cs), 1, "_create_compressors call in %s" % qn)
+        for c in cs:
+            a = c.args[0] if c.args else q.kwarg(c, "side")
+            ck.ob(R, fi, c, a is not None and q.is_const(a, want), "%s builds the compressors as the %r side (own parameters compress, the peer's decompress)" % (qn, want))
+    # mask direction: clients mask, servers do not (RFC 6455 5.1) - decided where the protocol objects are built
+    for qn, want in (("WebSocketHandler.get_websocket_protocol", False), ("WebSocketClientConnection.get_websocket_protocol", True)):
+        fi = ck.func(W, qn)
+        cs = q.find_calls(fi.node, P13)
+        ck.floor("C14.mask", len(cs), 1, "%s constructions in %s" % (P13, qn))
+        for c in cs:
+            a = q.arg(c, 1, "mask_outgoing")
+            ck.ob("C14.mask", fi, c, a is not None and isinstance(a, ast.Constant) and a.value is want, "%s creates the protocol with mask_outgoing=%s" % (qn, want))
+    init = ck.func(W, P13 + ".__init__")
+    st = q.stores_to(init.node, "self.mask_outgoing")
+    ck.ob("C14.mask", init, init.node, len(st) == 1 and q.dotted(st[0].value) == "mask_outgoing", "mask_outgoing is stored unchanged", construct="mask_outgoing stored")
+    # frame reads are exact reads of the requested number of bytes
+    rb = ck.func(W, P13 + "._read_bytes")
+    np_ = [p for p in rb.params() if p != "self"][0]
+    reads = [c for c in q.calls(rb.node) if isinstance(c.func, attr_t) and c.func.attr.startswith("read")]
+    ok = len(reads) == 1 and q.is_call(reads[0], "self.stream.read_bytes") and len(reads[0].args) == 1 and q.dotted(reads[0].args[0]) == np_ and not reads[0].keywords
+    ck.ob("C14.reassembly", rb, rb.node, ok, "_read_bytes(n) is exactly stream.read_bytes(n) (no partial reads, no other length)", construct="_read_bytes exact: %s" % ok)
+    rets = [x for x in q.walk_body(rb.node) if isinstance(x, ast.Return)]
+    okr = False
+    if len(rets) == 1 and isinstance(rets[0].value, ast.Name):
+        stv = q.stores_to(rb.node, rets[0].value.id)
+        okr = len(stv) == 1 and isinstance(stv[0].value, ast.Await) and stv[0].value.value is (reads[0] if reads else None)
+    elif len(rets) == 1 and isinstance(rets[0].value, ast.Await):
+        okr = bool(reads) and rets[0].value.value is reads[0]
+    ck.ob("C14.reassembly", rb, rb.node, okr, "_read_bytes returns the bytes read, unchanged", construct="_read_bytes returns the read: %s" % okr)
+
+
+attr_t = ast.Attribute
 
 
 # ---------------------------------------------------------------------------
@@ -660,11 +770,13 @@ def run(ck):
     rule_reassembly(ck, rf, consts)
     direct, ext = rule_len_reader(ck, rf, consts)
     rule_mask_reader(ck, rf, consts)
+    rule_header_reads(ck, rf, consts)
     rule_dispatch(ck, hm, consts)
     n = rule_writer(ck, wf, consts, direct, ext)
     ck.floor("C14.len-table", n, 10, "writer cases")
     rule_write_message(ck, wm, consts)
     rule_deflate(ck, consts)
+    rule_sides_and_reads(ck)
     rule_ordered(ck, rf, hm)
 
 
@@ -718,7 +830,26 @@ def _swap_sides(root):
     return k == 2
 
 
+def _options_once(root):
+    """seeded C14-adv1: options computed once for our side and reused for the decompressor"""
+    k = 0
+    for n in ast.walk(root):
+        if isinstance(n, ast.Call) and q.is_call(n, "self._get_compressor_options") and n.args and isinstance(n.args[0], ast.Name) and n.args[0].id == "other_side":
+            n.args[0] = ast.Name(id="side", ctx=ast.Load())
+            k += 1
+    return k == 1
+
+
 MUTANTS = [
+    ("seeded C14-adv1: decompressor configured with our side's parameters", _in(P13 + "._create_compressors", _options_once), "C14.deflate-pairing"),
+    ("client builds its compressors as the server side", _in(P13 + "._process_server_headers", _const("client", "server")), "C14.deflate-pairing"),
+    ("server-side protocol masks its frames", _in("WebSocketHandler.get_websocket_protocol", replace_expr(lambda n: q.is_call(n, P13), lambda n: ast.Call(func=n.func, args=[n.args[0], ast.Constant(value=True), n.args[2]], keywords=[]))), "C14.mask"),
+    ("buffer truthiness: empty first fragment treated as 'nothing to continue'", _in(P13 + "._receive_frame", replace_expr(lambda n: isinstance(n, ast.Compare) and _src(n) == "self._fragmented_message_buffer is None", lambda n: parse_expr("not self._fragmented_message_buffer"))), "C14.reassembly"),
+    ("empty payloads skip the dispatch (fast path)", _in(P13 + "._receive_frame", replace_expr(lambda n: isinstance(n, ast.Name) and n.id == "is_final_frame" and isinstance(n.ctx, ast.Load), lambda n: parse_expr("(is_final_frame and data)"), limit=9)), None),
+    ("partial reads of the payload", _in(P13 + "._read_bytes", replace_expr(lambda n: q.is_call(n, "self.stream.read_bytes"), lambda n: parse_expr("self.stream.read_bytes(n, partial=True)"))), "C14.reassembly"),
+    ("mask key not consumed for empty masked payloads", _in(P13 + "._receive_frame", replace_stmt(lambda st: isinstance(st, ast.If) and _src(st.test) == "is_masked" and "_read_bytes(4)" in _src(st), lambda st: [ast.If(test=parse_expr("is_masked and payloadlen"), body=st.body, orelse=[])])), "C14.mask"),
+    ("negotiated window bits ignored", _in(P13 + "._get_compressor_options", replace_expr(lambda n: q.is_call(n, "int"), lambda n: parse_expr("zlib.MAX_WBITS"))), "C14.deflate-pairing"),
+    ("compressed payload computed but the original is sent (with RSV1)", _in(P13 + ".write_message", replace_stmt(lambda st: isinstance(st, ast.Assign) and ".compress(" in _src(st), lambda st: [ast.Expr(value=st.value)])), "C14.deflate-pairing"),
     ("control-frame branch resets the reassembly buffer", _in(P13 + "._receive_frame", _ctl_branch_touches_buffer), "C14.ctl-no-msg-state"),
     ("continuation frames rewrite _frame_compressed (opcode != 0 dropped)", _in(P13 + "._receive_frame", replace_expr(lambda n: isinstance(n, ast.BoolOp) and "opcode != 0" in _src(n) and "_decompressor" in _src(n), lambda n: ast.BoolOp(op=n.op, values=[v for v in n.values if _src(v) != "opcode != 0"]))), "C14.ctl-no-msg-state"),
     ("undo the F11 repair (header side): control frames rewrite _frame_compressed", _in(P13 + "._receive_frame", replace_expr(lambda n: isinstance(n, ast.BoolOp) and "opcode != 0" in _src(n) and "_decompressor" in _src(n), lambda n: parse_expr("self._decompressor is not None and opcode != 0"))), "C14.ctl-no-msg-state"),
